@@ -237,6 +237,10 @@ func (d *drv) applyEnumerable(op *Op) string {
 	}
 	if result != nil {
 		res = contentObs(result)
+		// the result is a container in its own right: use it, then undo
+		if !result.soundAfterUse(d) {
+			return obsFail(failUnsound)
+		}
 		// the result must not share state with the receiver: mutate it and look again
 		result.mutate()
 		if d.fingerprint() != before {
@@ -269,6 +273,9 @@ func (d *drv) applyAlgebra(op *Op) string {
 		return obsFail(failModified)
 	}
 	res := algebraObs(result)
+	if !result.soundAfterUse(d) {
+		return obsFail(failUnsound)
+	}
 	result.mutate()
 	if d.fingerprint() != before || other.fingerprint() != otherBefore {
 		return obsFail(failAlias)
@@ -291,4 +298,95 @@ func (d *drv) applyAlgebra(op *Op) string {
 		}
 	}
 	return res
+}
+
+// soundAfterUse exercises a derived container (the result of Select, Map or of a set-algebra call) as
+// a receiver: one insertion and its removal must behave as on any container of the kind, the internal
+// links must stay consistent, and - for sets - the algebra between the derived set and the set it was
+// derived from must work (same comparator, same kind).  The container is left with its original content.
+func (r *drv) soundAfterUse(from *drv) (ok bool) {
+	defer func() {
+		if rec := recover(); rec != nil {
+			ok = false
+		}
+	}()
+	k := r.cfg.Kind
+	before := append([]int{}, r.c.Values()...)
+	size := r.c.Size()
+	mark := mutateMark + 7
+	switch {
+	case isListKind(k):
+		r.add(mark)
+		vs := r.c.Values()
+		if len(vs) != size+1 || vs[size] != mark || !intsEqual(vs[:size], before) || r.c.Size() != size+1 {
+			return false
+		}
+		if r.links != nil && !r.links() {
+			return false
+		}
+		r.removeAt(size)
+	case isSetKind(k):
+		r.add(mark)
+		if !r.contains(mark) || r.c.Size() != size+1 || (r.links != nil && !r.links()) {
+			return false
+		}
+		r.removeVals(mark)
+		// algebra with the set it came from: |r ∩ from| = number of members of r that from contains
+		if from != nil && from.inter != nil && r.inter != nil {
+			want := 0
+			for _, x := range before {
+				if from.contains(x) {
+					want++
+				}
+			}
+			got := r.inter(from)
+			for _, x := range got.c.Values() {
+				if !from.contains(x) || !r.contains(x) {
+					return false
+				}
+			}
+			if got.c.Size() != want {
+				return false
+			}
+			u := r.union(from)
+			for _, x := range before {
+				if !u.contains(x) {
+					return false
+				}
+			}
+			for _, x := range from.c.Values() {
+				if !u.contains(x) {
+					return false
+				}
+			}
+		}
+	case isKVKind(k):
+		if r.put != nil && r.remove != nil && r.get != nil {
+			r.put(mark, mark)
+			if v, found := r.get(mark); !found || v != mark || r.c.Size() != size+1 || (r.links != nil && !r.links()) {
+				return false
+			}
+			r.remove(mark)
+		}
+	}
+	if r.c.Size() != size || (r.links != nil && !r.links()) {
+		return false
+	}
+	after := r.c.Values()
+	if isSetKind(k) && k != "TreeSet" || k == "HashMap" || k == "HashBidiMap" {
+		return intsEqual(sortedCopy(after), sortedCopy(before))
+	}
+	return intsEqual(after, before)
+}
+
+func intsEqual(a, b []int) bool {
+	if len(a) != len(b) {
+		return false
+	}
+	for i := range a {
+		if a[i] != b[i] {
+			return false
+		}
+	}
+	return true
 }
